@@ -47,7 +47,7 @@ if __name__ == "__main__":
         for i, o in enumerate(allobls):
             open("/tmp/dump/%03d_%s.smt2" % (i, o.site.replace("/", "_").replace(":", "_")[:80]), "w").write(solve.to_smt(o, o.bg) + "(check-sat)\n")
         print("dumped", len(allobls)); sys.exit(0)
-    w = solve.discharge(allobls, timeout_ms=int(__import__("os").environ.get("PYVC_TMO", "20000")))
+    w = solve.discharge(allobls, timeout_ms=int(__import__("os").environ.get("PYVC_TMO", "20000")), learn="--learn" in sys.argv)
     bad = 0
     for o in allobls:
         ok = (o.status == "proved") if o.kind != "canary" else (o.status != "proved")
